@@ -12,7 +12,7 @@
 (* index in `bad`, drops the current Parser session (until the next Reset) *)
 (* and goes on, so one rejected event does not hide the rest of the file.  *)
 (***************************************************************************)
-EXTENDS BklTools, Json, SequencesExt
+EXTENDS BklResolver, Json, SequencesExt
 
 TraceFile == "trace.ndjson"
 Trace     == ndJsonDeserialize(TraceFile)
@@ -29,14 +29,16 @@ VARIABLES l,      \* index of the next trace line to consume
           nundef, \* number of events outside the modelled domain (no verdict)
           shas,   \* [format -> digest] of the output calls since the last state change
           firsts, \* [input key -> <<ok, digest>>] of the first run of every input (C09)
-          needs   \* set of <<line, name, argument>>: codec values the environment must supply
-vars == <<l, docs, par, live, bad, nchk, nundef, shas, firsts, needs>>
+          needs,  \* set of <<line, name, argument>>: codec values the environment must supply
+          rs      \* state of the small-step resolver while a step log is being validated
+vars == <<l, docs, par, live, bad, nchk, nundef, shas, firsts, needs, rs>>
 
 Ev == Trace[l]
 IsEvent(n) == l <= Len(Trace) /\ Trace[l].ev = n
 Advance == /\ l' = l + 1
            /\ (IF l <= Len(Trace) /\ Trace[l].ev = "Repeat" THEN TRUE ELSE UNCHANGED firsts)
            /\ (IF l <= Len(Trace) /\ Trace[l].ev \in {"Eval", "Output"} THEN TRUE ELSE UNCHANGED needs)
+           /\ (IF l <= Len(Trace) /\ Trace[l].ev \in {"RBegin", "RStep", "REnd"} THEN TRUE ELSE UNCHANGED rs)
 (* an evaluation that stopped at a missing codec value: no verdict, the need is recorded *)
 NoteNeed(r) == needs' = IF ~r.ok /\ r.err = "need" THEN needs \cup {<<l, r.need.name, r.need.arg>>} ELSE needs
 Keep == UNCHANGED <<docs, par, live>>
@@ -85,7 +87,7 @@ EnvOf(e) == IF "env" \in DOMAIN e THEN e.env ELSE <<>>
 CodecOf(e) == IF "codec" \in DOMAIN e THEN e.codec ELSE <<>>
 
 TInit == /\ l = 2 /\ docs = <<>> /\ par = <<>> /\ live = "ok" /\ bad = {} /\ nchk = 0 /\ nundef = 0
-         /\ shas = <<>> /\ firsts = <<>> /\ needs = {}
+         /\ shas = <<>> /\ firsts = <<>> /\ needs = {} /\ rs = [status |-> "idle"]
 
 (* a new Parser *)
 TReset ==
@@ -263,6 +265,35 @@ TEmit ==
               ELSE ""
      IN Verdict(j)
 
+(* the step log of one `bkl -v` run, validated action by action against the *)
+(* small-step resolver: RBegin (layout, inputs), one RStep per log line      *)
+(* ("[id] loading", "[id] merging"), REnd (exit status and outputs)          *)
+TRBegin ==
+  /\ IsEvent("RBegin") /\ Advance /\ Keep /\ UNCHANGED shas
+  /\ rs' = Settle(RInit(FsOfEvent(Ev), RootAt(Ev.root), Ev.inputs, Ev.skip))
+  /\ UNCHANGED <<bad, nchk, nundef>>
+TRStep ==
+  /\ IsEvent("RStep") /\ Advance /\ Keep /\ UNCHANGED shas
+  /\ IF rs.status = "lost" THEN UNCHANGED <<rs, bad, nchk, nundef>>
+     ELSE IF rs.status # "run" THEN
+          /\ Verdict("the program reports a step after the specification's run is over (" \o rs.status \o ")")
+          /\ rs' = [status |-> "lost"]
+     ELSE IF NextLabel(rs) # [kind |-> Ev.kind, id |-> Ev.id] THEN
+          /\ Verdict("step not enabled: the specification's next step is " \o NextLabel(rs).kind \o " " \o NextLabel(rs).id)
+          /\ rs' = [status |-> "lost"]
+     ELSE Verdict("") /\ rs' = Settle(Step(rs))
+TREnd ==
+  /\ IsEvent("REnd") /\ Advance /\ Keep /\ UNCHANGED shas
+  /\ rs' = [status |-> "idle"]
+  /\ IF rs.status = "lost" THEN UNCHANGED <<bad, nchk, nundef>>
+     ELSE IF rs.status = "run" THEN Verdict("the program stopped while the specification still has steps to take (next: " \o NextLabel(rs).kind \o " " \o NextLabel(rs).id \o ")")
+     ELSE LET r == IF rs.status = "done" THEN EvalAll(rs.docs, <<>>) ELSE Err("resolve") IN
+          Verdict(IF ~r.ok /\ r.err = "undef" THEN "undef"
+                  ELSE IF r.ok /\ ~Ev.ok THEN "spec evaluates, code failed"
+                  ELSE IF ~r.ok /\ Ev.ok THEN "spec fails (" \o r.err \o "), code evaluated"
+                  ELSE IF r.ok /\ r.v # Ev.outs THEN "outputs differ"
+                  ELSE "")
+
 (* one process: the termination protocol of every tool (C08) *)
 TProc ==
   /\ IsEvent("Proc") /\ Advance /\ Keep /\ UNCHANGED shas
@@ -292,9 +323,9 @@ TDone ==
          needs |-> LET q == SetToSeq(needs) IN [i \in DOMAIN q |-> [line |-> q[i][1], name |-> q[i][2], arg |-> q[i][3]]],
          bad |-> LET q == SetToSeq(bad) IN [i \in DOMAIN q |-> [line |-> q[i][1], why |-> q[i][2]]]])
   /\ l' = l + 1
-  /\ UNCHANGED <<docs, par, live, bad, nchk, nundef, shas, firsts, needs>>
+  /\ UNCHANGED <<docs, par, live, bad, nchk, nundef, shas, firsts, needs, rs>>
 
-TNext == TReset \/ TSkip \/ TMergeDocument \/ TDocuments \/ TOutput \/ TEval \/ TRun \/ TProc \/ TRepeat \/ TWrap \/ TTool \/ TCodec \/ TEmit \/ TDone
+TNext == TReset \/ TSkip \/ TMergeDocument \/ TDocuments \/ TOutput \/ TEval \/ TRun \/ TProc \/ TRepeat \/ TWrap \/ TTool \/ TCodec \/ TEmit \/ TRBegin \/ TRStep \/ TREnd \/ TDone
 TSpec == TInit /\ [][TNext]_vars
 
 (* every line is consumed by exactly one action *)
